@@ -1,7 +1,8 @@
 (* C05 -- serialization always emits well-formed JSON that denotes the serialized value.
    Statements only. *)
 From Coq Require Import List NArith Arith Bool.
-From SonicV Require Import Base.Blocks Model.Escape Model.TablesDefs Model.TablesOk Model.Pretty Model.SerRoundTrip Gen.Tables Spec.Ref Model.EscRoundTrip.
+From SonicV Require Import Base.Blocks Model.Escape Model.TablesDefs Model.TablesOk Model.Pretty Model.SerRoundTrip Gen.Tables Spec.Ref Model.EscRoundTrip Model.SerAll.
+From SonicV Require Model.SerClosed.
 Import ListNotations.
 Local Close Scope N_scope.
 Local Open Scope nat_scope.
@@ -45,3 +46,10 @@ Qed.
 Theorem escaped_string_decodes_back : forall s fuel rest, length s < fuel ->
   Ref.str_body true fuel (escape s ++ 34%N :: rest) = Some (s, existsb need_spec s, rest).
 Proof. exact decode_escape. Qed.
+
+(* closed form, against the executable reference parser itself: the compact serialization of ANY
+   reference tree whose numbers are RFC 8259 literals (strings: arbitrary bytes) is accepted by the
+   fully-decoding reference parser, which consumes exactly the text and returns the same plain tree *)
+Theorem compact_serialization_denotes_the_tree : forall v, SerClosed.wf (SerClosed.erase v) ->
+  exists v', Ref.ref_text true (ser_compact v) = Some (v', 0, length (ser_compact v)) /\ SerClosed.erase v' = SerClosed.erase v.
+Proof. exact SerClosed.ser_compact_reads_back. Qed.
